@@ -1,4 +1,3 @@
-import os
 from vlib import Job
 
 FUNCS_CHAIN = ["parsec_class_initialize", "parsec_class_finalize", "parsec_obj_new", "parsec_obj_run_constructors",
@@ -24,7 +23,11 @@ META = dict(
                 "may free the object as soon as I hold nothing', with the invariant count == references held; after a release "
                 "that was not the last the object is not touched again (it is freed by the environment: pointer check). A lemma "
                 "composes the per-thread contracts: at most one release observes 0 and none can while another reference is held. "
-                "(C) bounded cross-check on whole linearised histories (3 threads) on real PARSEC_OBJ_NEW objects.",
+                "(C) bounded cross-check on whole linearised histories (3 threads) on real PARSEC_OBJ_NEW objects. "
+                "(D) the hierarchy made of the base class alone: the pre-initialised parsec_object_t_class carries empty "
+                "NULL-terminated chains (class invariant the macros rely on when they skip parsec_class_initialize) and a plain "
+                "parsec_object_t goes through construct/new, retain, release, destruct, free correctly (this job found the NULL "
+                "chain arrays repaired by /repo commit ea7592a).",
     trusted_base=["rely/guarantee soundness theorem (per-thread obligations under the rely imply the invariant for every interleaving)",
                   "ghost constructors/destructors ctor_i/dtor_i and the ghost obj_release rel_spy only log (user constructors that "
                   "retain/release the object under construction are outside the statement)",
@@ -74,14 +77,13 @@ def jobs(tier):
                              "hierarchy of depth %d with a constructor and destructor at every level" % (nops, d),
                      functions=["PARSEC_OBJ_NEW", "PARSEC_OBJ_RETAIN", "PARSEC_OBJ_RELEASE", "parsec_obj_destruct_and_free"],
                      timeout=1800 if full else 600, min_obligations=3))
-    # Hierarchy made of the base class alone (PARSEC_OBJ_CONSTRUCT(x, parsec_object_t), as parsec_data_new() does): the
-    # statically pre-initialised parsec_object_t_class has NULL chain arrays, so run_constructors/run_destructors dereference
-    # NULL.  FAILS on the pinned tree (genuine defect, demonstrated natively); kept in its own job.  VERIF_C34_SKIP_BASE=1
-    # leaves it out (used to validate the other jobs / the self-test while the finding is neither fixed nor registered).
-    if os.environ.get("VERIF_C34_SKIP_BASE") != "1":
-        J.append(Job("base_class.finding", "h_base.c", entry="h_base_class", unwind=12,
-                     functions=["PARSEC_OBJ_CONSTRUCT", "PARSEC_OBJ_NEW", "parsec_obj_run_constructors", "parsec_obj_run_destructors"],
-                     timeout=300, min_obligations=3))
+    # Hierarchy made of the base class alone (PARSEC_OBJ_CONSTRUCT(x, parsec_object_t), as parsec_data_new() does with a recycled
+    # item): the statically pre-initialised parsec_object_t_class must carry empty NULL-terminated chain arrays (it had NULL arrays
+    # and crashed before /repo commit ea7592a, found by this job); then construct / new / retain / release / destruct / free.
+    J.append(Job("base_class.chains", "h_base.c", entry="h_base_class", unwind=12,
+                 functions=["PARSEC_OBJ_CONSTRUCT", "PARSEC_OBJ_NEW", "PARSEC_OBJ_RETAIN", "PARSEC_OBJ_RELEASE", "PARSEC_OBJ_DESTRUCT",
+                            "parsec_obj_run_constructors", "parsec_obj_run_destructors", "parsec_obj_destruct_and_free"],
+                 timeout=300, min_obligations=10))
     return J
 
 
@@ -93,7 +95,8 @@ MANIFEST = dict(
          "shapes of depth 1..4 (the property's own domain, enumerated completely); RELEASE destroys iff its own atomic update took "
          "the count to 0, for all 32-bit counts and under arbitrary interference permitted by the rely (loop-free code: complete); an "
          "arithmetic lemma gives 'at most one release observes 0, and none while a reference is held'. Whole histories are "
-         "additionally cross-checked up to a bounded length (reported as bounded, not counted as proved).",
+         "additionally cross-checked up to a bounded length (reported as bounded, not counted as proved). The base class alone "
+         "(plain parsec_object_t, as used by parsec_data_new) is covered by its own job.",
     note="Not decided: that callers respect the precondition 'holds a reference' (use-after-release by a caller is outside); weak-memory "
          "behaviour of the unlocked cls_initialized test; user constructors/destructors with side effects on the count; out-of-memory "
          "paths; concurrent parsec_class_finalize. Rely/guarantee soundness is trusted; the history cross-check is bounded "
